@@ -21,11 +21,15 @@ CONTROLS = {
             _c("strict flag ignored", "incl-upper", BIC, "regex = _bic_swift_re if enforce_swift_compliance else _bic_iso9362_re", "regex = _bic_iso9362_re")],
     "C05": [_c("is_valid handler narrowed", "isvalid", I, "        except exceptions.SchwiftyException:\n            return False\n\n    @property\n    def numeric",
                "        except exceptions.InvalidStructure:\n            return False\n\n    @property\n    def numeric")],
-    "C06": [_c("ES weights swapped", "R06-table", "schwifty/checksum/spain.py", "weights = [1, 2, 4, 8, 5, 10, 9, 7, 3, 6]", "weights = [1, 2, 4, 8, 5, 10, 9, 7, 6, 3]")],
+    "C06": [_c("ES weights swapped", "R06-table", "schwifty/checksum/spain.py", "weights = [1, 2, 4, 8, 5, 10, 9, 7, 3, 6]", "weights = [1, 2, 4, 8, 5, 10, 9, 7, 6, 3]"),
+            _c("generation-side key format", "R06-dispatch", B, 'algorithms.get(f"{country_code}:default")', 'algorithms.get(f"{country_code}-default")')],
     "C07": [_c("method 33 weights", "R07-table", G, "weights: ClassVar[list[int]] = [2, 3, 4, 5, 6]\n", "weights: ClassVar[list[int]] = [2, 3, 4, 6, 5]\n"),
-            _c("reconcile boundary", "R07-digit", G, "return 0 if checksum >= 10 else checksum", "return 0 if checksum > 10 else checksum")],
+            _c("reconcile boundary", "R07-digit", G, "return 0 if checksum >= 10 else checksum", "return 0 if checksum > 10 else checksum"),
+            _c("bank entry field renamed in the reader", "R07-dispatch", B, 'bank.get("checksum_algo", "default")', 'bank.get("checksum_algorithm", "default")')],
     "C08": [_c("wrong error class for branch", "R08-guards", B, "            raise exceptions.InvalidBranchCode(", "            raise exceptions.InvalidBankCode(")],
-    "C09": [_c("PL compute off", "R09", "schwifty/checksum/poland.py", "weights = [3, 9, 7, 1, 3, 9, 7]", "weights = [3, 9, 7, 1, 3, 9, 1]")],
+    "C09": [_c("validate compares first digit only", "R09-same", CK, "        return self.compute(components) == expected", "        return self.compute(components)[:1] == expected[:1]"),
+            _c("accessor one short", "R09-readback", B, "return self._get_slice(position.start, position.end)", "return self._get_slice(position.start, max(position.end - 1, position.start))"),
+            _c("random bypasses from_components for BE", "R09-funnel", B, '        if "positions" not in spec:\n            return', '        if "positions" not in spec or country_code == "BE":\n            return')],
     "C10": [_c("ASCII whitespace only", "R10-clean", C, '_clean_regex = re.compile(r"\\s+")', '_clean_regex = re.compile(r"[ \\t\\n]+")'),
             _c("formatted off by one", "R10-format", I, "for i in range(0, len(self), 4))", "for i in range(0, len(self) - 1, 4))")],
     "C11": [_c("proxy swapped", "R11-proxy", I, "        return self.bban.branch_code\n\n    @property\n    def account_code", "        return self.bban.bank_code\n\n    @property\n    def account_code"),
